@@ -782,6 +782,32 @@ where
     })
 }
 
+/// `lsfd TAG` : print the descriptors open in this (real) process, from /proc/self/fd. Only
+/// meaningful on the real system, where the shell is the whole process.
+fn lsfd_main<S>(
+    env: &mut Env<S>,
+    args: Vec<Field>,
+) -> Pin<Box<dyn Future<Output = yash_env::builtin::Result> + '_>>
+where
+    S: yash_env::system::concurrency::WriteAll,
+{
+    Box::pin(async move {
+        let tag = args.first().map(|f| f.value.clone()).unwrap_or_default();
+        let mut fds: Vec<i32> = std::fs::read_dir("/proc/self/fd")
+            .map(|rd| rd.flatten().filter_map(|e| e.file_name().to_str().and_then(|s| s.parse().ok())).collect())
+            .unwrap_or_default();
+        // (the descriptor read_dir itself used is closed by now)
+        // SAFETY: F_GETFD only queries the descriptor
+        fds.retain(|fd| unsafe { libc::fcntl(*fd, libc::F_GETFD) } != -1);
+        fds.sort();
+        let s = format!("{tag}: {}\n", fds.iter().map(|f| f.to_string()).collect::<Vec<_>>().join(" "));
+        match env.system.write_all(Fd::STDOUT, s.as_bytes()).await {
+            Ok(_) => yash_env::builtin::Result::new(ExitStatus::SUCCESS),
+            Err(_) => yash_env::builtin::Result::new(ExitStatus::FAILURE),
+        }
+    })
+}
+
 /// `ret N` : return N, no other effect.
 fn ret_main<S>(
     _env: &mut Env<S>,
@@ -1032,6 +1058,7 @@ where
         ("relay", Builtin::new(Type::Mandatory, relay_main::<S>)),
         ("pos", Builtin::new(Type::Mandatory, pos_main::<S>)),
         ("off", Builtin::new(Type::Mandatory, off_main::<S>)),
+        ("lsfd", Builtin::new(Type::Mandatory, lsfd_main::<S>)),
     ]
 }
 
